@@ -18,10 +18,11 @@ import ExecnetVerif.Driver.PoolIO
 import ExecnetVerif.Driver.GateIO
 import ExecnetVerif.Driver.MakeConcIO
 import ExecnetVerif.Driver.SpawnFailIO
+import ExecnetVerif.Driver.ExecChoiceIO
 
 open ExecnetVerif
 
-def handlers : List (List String → Option String) := [serHandle, chanFileHandle, xspecHandle, groupHandle, rsyncHandle, bootHandle, rexecHandle, exitHandle, termHandle, frameHandle, Net.netHandle, Net.netCheckHandle, Net.netFineHandle, poolHandle, gateHandle, mkConcHandle, spawnFailHandle]
+def handlers : List (List String → Option String) := [serHandle, chanFileHandle, xspecHandle, groupHandle, rsyncHandle, bootHandle, rexecHandle, exitHandle, termHandle, frameHandle, Net.netHandle, Net.netCheckHandle, Net.netFineHandle, poolHandle, gateHandle, mkConcHandle, spawnFailHandle, execChoiceHandle]
 
 def dispatch (line : String) : String :=
   let toks := (line.splitOn " ").filter (· ≠ "")
